@@ -45,6 +45,7 @@ type VC struct {
 	items        []Item
 	obligs       []*Oblig
 	nfresh       int
+	nframes      int
 	compSrt      map[string]string
 	strLits      map[string]string
 	declFns      map[string]bool
